@@ -1,7 +1,7 @@
 /-
 `vmodel`: line-protocol driver of the executable Lean model.
 Reads one case per line on stdin, prints `<stream> <id> MODEL <observation>` per case.
-Usage: `vmodel [--fixes <digits 0/1: f1 f2 f3 f4 f5 f2b f8 f10 f14>]`.
+Usage: `vmodel [--fixes <digits 0/1: f1 f2 f3 f4 f5 f2b f8 f10 f14 f12>]`.
 -/
 import Vibrato.Driver.Tok
 import Vibrato.Driver.Corpus
@@ -9,6 +9,8 @@ import Vibrato.Driver.Rewriter
 import Vibrato.Driver.Image
 import Vibrato.Driver.LexCsv
 import Vibrato.Driver.Conn
+import Vibrato.Driver.Extractor
+import Vibrato.Driver.Trainer
 
 open Vibrato Vibrato.Driver
 
@@ -17,7 +19,7 @@ structure DState where
 
 def parseFixes (s : String) : Fixes :=
   let b (i : Nat) : Bool := (s.toList.getD i '1') == '1'
-  ⟨b 0, b 1, b 2, b 3, b 4, b 5, b 6, b 7, b 8⟩
+  ⟨b 0, b 1, b 2, b 3, b 4, b 5, b 6, b 7, b 8, b 9⟩
 
 /-- the tokens of a case before the implementation's observation -/
 def input (rest : List String) : List String := rest.takeWhile (· ≠ "IMPL")
@@ -59,6 +61,14 @@ def stepLine (fx : Fixes) (st : DState) (line : String) : DState × String :=
     -- with the identity): the three dictionaries tokenize identically
     (st, s!"conn3 {id} MODEL same")
   | "scorer" :: id :: rest => (st, s!"scorer {id} MODEL {Conn.handleScorer (input rest)}")
+  | "extract" :: id :: rest =>
+    let inp := input rest
+    let inp := match inp.head? with
+      | some "FEATSET" => inp ++ ["FIXED", if fx.f10 then "1" else "0"]
+      | some "MECAB" => if fx.f12 then inp ++ ["FIXED", "1"] else inp
+      | _ => inp
+    (st, s!"extract {id} MODEL {Extractor.handle inp}")
+  | "train" :: id :: rest => (st, s!"train {id} MODEL {Trainer.handle (input rest)}")
   | "corpus" :: id :: rest => (st, s!"corpus {id} MODEL {Corpus.handle (input rest)}")
   | s :: id :: _ => (st, s!"{s} {id} MODEL unknown-stream")
   | _ => (st, "? ? MODEL badline")
